@@ -7,7 +7,9 @@ RULE = ("finite enumeration of the option table transcribed from the manual: eve
         "command line, plus the scanner without the option; observables: symbols of the object "
         "file (nm), compile-time probes (static assertions, pointer-type checks), run-time "
         "output, files written, flex diagnostics.  A row counts only if the probe tells the "
-        "scanner with the option from the one without it")
+        "scanner with the option from the one without it.  Besides, every spelling in the manual's "
+        "option list (each '--name' and each '%option name' of an @item line of doc/flex.texi) "
+        "is handed to flex and must be recognized")
 
 MAIN = "int main(void) { while (yylex()) ; return 0; }\n"
 RMAIN = ("int main(void) { yyscan_t s; if (yylex_init(&s)) return 9; while (yylex(s)) ; "
@@ -456,10 +458,76 @@ def row_worker(args):
     return res
 
 
+VALUES = {"FILE": "probe_out.x", "PREFIX": "zz", "NAME": "Probe", "LANG": "c99", "your_type": "int",
+          "xx": "xx", "zz": "zz"}
+
+
+def manual_spellings():
+    """Every spelling the manual's option list gives: ('cli', '--name[=value]') and
+    ('opt', 'name[=\"value\"]'), from the @item lines of doc/flex.texi."""
+    out = []
+    try:
+        texi = open(os.path.join(util.REPO, "doc", "flex.texi"), encoding="latin1").read()
+    except OSError:
+        return out
+    for line in texi.splitlines():
+        if not line.startswith("@item"):
+            continue
+        for m in re.finditer(r"(?<![-\w])(--[a-z+0-9][-a-z+0-9_]*)(\[?=([A-Za-z_]+)\]?)?", line):
+            name, val = m.group(1), m.group(3)
+            if name in ("--help", "--version"):
+                continue
+            out.append(("cli", name + ("=" + VALUES.get(val, "x") if val else "")))
+        for m in re.finditer(r"@code\{%option ([a-z+0-9][-a-z+0-9_]*)(=\"?([A-Za-z_]+)\"?)?\}", line):
+            name, val = m.group(1), m.group(3)
+            out.append(("opt", name + ('="%s"' % VALUES.get(val, "x") if val else "")))
+    seen = set()
+    res = []
+    for x in out:
+        if x not in seen:
+            seen.add(x)
+            res.append(x)
+    return res
+
+
+def spelling_worker(args):
+    chk, idx, (kind, text) = args
+    flex = chk.flex("san")
+    d = os.path.join(chk.scratch.path, "sp%d" % idx)
+    os.makedirs(d, exist_ok=True)
+    spec_ = os.path.join(d, "p.l")
+    body = "%%\na ;\n%%\n"
+    if kind == "opt":
+        util.write(spec_, "%%option %s\n%s" % (text, body))
+        cmd = [flex.bin, "-t", spec_]
+    else:
+        util.write(spec_, body)
+        cmd = [flex.bin, "-t", text, spec_]
+    r = util.run(cmd, cwd=d, env=flex.env(tmpdir=d), timeout=60)
+    err = r.err.decode("latin1")
+    bad = None
+    if re.search(r"[Uu]nrecognized|[Uu]nknown option|ambiguous", err):
+        bad = "the manual lists %s, flex says: %s" % (
+            ("%option " + text) if kind == "opt" else text, err.strip()[:200])
+    elif "AddressSanitizer" in err or "runtime error" in err or (r.rc is not None and r.rc < 0):
+        bad = "flex crashed on %s: %s" % (text, err[-500:])
+    shutil.rmtree(d, ignore_errors=True)
+    return kind, text, bad
+
+
 def run(pid, tier):
     chk = common.Check(pid, tier)
     chk.rule = RULE
     known.replay_known(chk)
+    sp = manual_spellings()
+    for kind, text, bad in util.pmap(spelling_worker, [(chk, i, x) for i, x in enumerate(sp)]):
+        chk.count(1)
+        chk.nontriv("spelling:%s:%s" % (kind, text))
+        chk.feat1("manual_spellings_" + kind)
+        if bad:
+            chk.violation("spelling: " + bad, {"kind": "spelling", "option": text})
+    chk.require("manual_spellings_cli", 30)
+    chk.require("manual_spellings_opt", 40)
     names = set()
     for o in util.pmap(row_worker, [(chk, i, r) for i, r in enumerate(ROWS)]):
         chk.count(o["evals"])
